@@ -677,7 +677,16 @@ func (g *Gen) allocZero(st *State, t types.Type) Term {
 // ---------------------------------------------------------------- obligations
 
 func (g *Gen) oblige(st *State, kind string, pos token.Pos, src string, goal Term) {
-	if goal.isTrue() || g.muteObl > 0 {
+	if goal.isTrue() {
+		return
+	}
+	if runtimeCheck[kind] && !st.cond.isFalse() && g.topC != nil && g.topC.AssumeChecks {
+		// the run-time check of the Go statement itself: where it fails the execution panics and does not get
+		// any further, so what follows on this path holds the checked condition (whether or not the check is
+		// one of the claimed obligations)
+		defer g.assume(st.cond, goal)
+	}
+	if g.muteObl > 0 {
 		return
 	}
 	if g.topC != nil && g.topC.Claims != nil && !g.topC.Claims[kind] {
@@ -701,6 +710,10 @@ func (g *Gen) oblige(st *State, kind string, pos token.Pos, src string, goal Ter
 	g.obls = append(g.obls, &Obligation{Name: name, Kind: kind, Fn: fnName, Pos: p, Src: src,
 		Cond: st.cond, Goal: goal, PreludeLen: len(g.lines)})
 }
+
+// obligation kinds that are the run-time checks of Go statements (index/slice bounds, nil dereference, division by
+// zero, make with a negative size, a failing single-value type assertion)
+var runtimeCheck = map[string]bool{"bounds": true, "nil": true, "div0": true, "make": true, "assert": true}
 
 func (g *Gen) srcText(pos token.Pos, end token.Pos) string {
 	return g.ctx.srcText(pos, end)
